@@ -99,6 +99,8 @@ M_StepStructure ==
     CASE ev.op.op = "J" -> (ev.from = "enter.Join" /\ (ev.finished \/ ev.to = "join.lock")) \/ (ev.from = "join.lock" /\ ev.finished)
       [] ev.op.op = "P" -> ev.from \in {"enter.ToMultihash", "enter.RawHeads", "enter.ToJSONLog"}
       [] ev.op.op = "R" /\ ev.op.acc = "ToString" -> TRUE
+      [] ev.op.op = "R" /\ ev.op.acc = "RawHeadsHeld" ->
+           (ev.from = "enter.RawHeads" /\ ev.to = "held.RawHeads") \/ (ev.from = "held.RawHeads" /\ ev.finished)
       [] OTHER -> ev.finished
 
 TraceAccepted == TLCGet("stats").distinct = 2 * NRec
